@@ -507,6 +507,9 @@ _REDUCTIONS = {
     "value_counts": lambda d: d.a.value_counts(),
     "value_counts_str": lambda d: d.s.value_counts(),
     "unique": lambda d: d.a.unique(),
+    "value_counts_tree": lambda d: d.a.value_counts(split_out=1) if hasattr(d, "expr") else d.a.value_counts(),
+    "unique_tree": lambda d: d.a.unique(split_out=1) if hasattr(d, "expr") else d.a.unique(),
+    "drop_duplicates_tree": lambda d: d[["a", "t"]].drop_duplicates(split_out=1) if hasattr(d, "expr") else d[["a", "t"]].drop_duplicates(),
     "drop_duplicates": lambda d: d[["a", "t"]].drop_duplicates(),
     "nlargest": lambda d: d.nlargest(2, "b"),
     "nsmallest": lambda d: d.b.nsmallest(3),
@@ -524,9 +527,10 @@ _REDUCTIONS = {
     "gb_last": lambda d: d.groupby("a").b.last(),
 }
 # row order unspecified by dask-expr (hash/tree order of groups, value_counts ties, unique)
-_UNORDERED_RED = {"value_counts", "value_counts_str", "unique", "drop_duplicates", "mode", "nlargest", "nsmallest"} | {
+_UNORDERED_RED = {"value_counts", "value_counts_str", "unique", "drop_duplicates", "mode", "nlargest", "nsmallest",
+                  "value_counts_tree", "unique_tree", "drop_duplicates_tree"} | {
     k for k in _REDUCTIONS if k.startswith("gb_")}
-_NOINDEX_RED = {"unique", "drop_duplicates", "mode"}
+_NOINDEX_RED = {"unique", "drop_duplicates", "mode", "unique_tree", "drop_duplicates_tree"}
 
 
 def _as_pandas(x, name=None):
